@@ -256,6 +256,7 @@ def run(ctx):
     rule_reader(ctx)
     rule_cadence(ctx)
     serial.rule_R05_3(ctx)
+    serial.rule_R05_2(ctx)                 # a snapshot is written and read through the descriptor table: each row designates the member it names
     from . import c17
     c17.rule_accumulation(ctx, 'R06.6')   # the delta encoder decides with the same flags which fields changed
     ctx.not_decided.append('arbitrary histories of operations between snapshots; that the index walk accepts every well-formed file; the times array of snapshots whose time equals that of the first')
